@@ -123,6 +123,15 @@ def check_case(acc, arch, params, st=None, history=None):
         f4 = L.cplx.numpy(call(st.rho, space, expand=False))
         if f4.shape != (D,) or not close(f4.real / p, np.ones(D), 1e-12) or np.any(f4.imag != 0):
             bad("rho:form:expand-false-vp-omitted", f4, p)
+        # batches that are not in basis order (reversed; an unordered subset without repeats; with repeats): the
+        # reported probabilities and the paired diagonal follow the ROWS of the batch
+        for nm_, ix_ in (("reversed", list(range(D - 1, -1, -1))), ("unordered-subset", [D - 1, 0] + ([D // 2] if D > 2 else [])), ("with-repeat", [D - 1, 0, D - 1])):
+            sub_ = space[ix_]
+            po_ = call(st.probability, sub_).numpy()
+            ro_ = L.cplx.numpy(call(st.rho, sub_, expand=False))
+            if po_.shape != (len(ix_),) or not close(po_ / p[ix_], np.ones(len(ix_)), 1e-12) or not close(ro_.real / p[ix_], np.ones(len(ix_)), 1e-12):
+                bad("rho:form:batch-not-in-basis-order", po_, p[ix_], detail=dict(batch=nm_))
+                break
         # the SAME tensor object passed as both arguments (the natural way to ask for the diagonal), paired and
         # expanded, with the argument left untouched
         keep = space.clone()
